@@ -53,6 +53,25 @@ impl RegistryCore {
                 return Err(Error::AlreadyReg);
             }
 
+            // The common labels are appended to every sample of this
+            // collector, so none of them may repeat one of its own labels.
+            if let Some(ref common) = self.labels {
+                let own_names = desc
+                    .const_label_pairs
+                    .iter()
+                    .map(|lp| lp.name())
+                    .chain(desc.variable_labels.iter().map(|n| n.as_str()));
+                for label_name in own_names {
+                    if common.contains_key(label_name) {
+                        return Err(Error::Msg(format!(
+                            "label name {} of {:?} is already used as a \
+                             common label of the registry",
+                            label_name, desc.fq_name
+                        )));
+                    }
+                }
+            }
+
             let known_dim_hash = self
                 .dim_hashes_by_name
                 .get(&desc.fq_name)
